@@ -17,7 +17,7 @@ FINDINGS={
  'D9': "a capturing group inside a repetition reports the wrong text after backtracking into the repetition: captures of abandoned iterations are not restored ('(a)*a' on 'aa' gives $1 = '' instead of 'a'; '(?:(a)+\\1){2}' matches 'aaa')",
 }
 def classify(prop, key, shape):
-    kind=key.split('|')[8]
+    kind=key.split('|')[8].split('#')[0]
     scope=key.split('|')[1]
     if scope in ('case triggers','related','LITCLS'):
         # only the dotted / dotless i family is a recorded finding
